@@ -49,7 +49,7 @@ _SYMS = {}
 def symbol_table():
     import sympy
     if not _SYMS:
-        for n in ("x", "y", "z"):
+        for n in ("x", "y", "z", "w"):
             _SYMS[n] = sympy.Symbol(n)
         for n in ("u", "v"):
             _SYMS[n] = sympy.Symbol(n, real=True)
